@@ -68,7 +68,7 @@ theorem finishRun_spec {c : Cfg} {st st' : StB} {s : Nat} {x : Exit} {pick : Nat
       st'.a.ph = setAt st.a.ph s (finPh r) ∧ st'.a.creq = setAt st.a.creq s false ∧ st'.a.deliv = st.a.deliv ∧
       st'.a.pc = setAt st.a.pc s .over ∧ st'.a.rx = st.a.rx ∧ st'.a.now = st.a.now ∧
       st'.pcB = setAt st.pcB s .over ∧ st'.failT = st.failT ∧
-      st'.failC = setAt st.failC s (x == .critical) ∧ st'.tbegin = st.tbegin := by
+      st'.failC = st.failC ∧ st'.tbegin = st.tbegin := by
   unfold finishRun at h
   split at h
   · cases h
@@ -102,7 +102,8 @@ theorem loop_exit (c : Cfg) (st st' : StB) (e : EvB) (s : Nat)
     ∃ x, st'.pcB s = .tidy x ∧ st'.a.ph = st.a.ph ∧
       st'.a.creq = (fun k => st.a.creq k || decide (k ∈ liveChildren c st.a s)) ∧
       st'.a.deliv = st.a.deliv ∧ st'.a.now = st.a.now ∧ st'.tbegin = st.tbegin ∧
-      st'.failT = setAt st.failT s (x == .timeout) ∧ st'.failC = st.failC ∧ ExitReason c st e s x := by
+      st'.failT = setAt st.failT s (x == .timeout) ∧ st'.failC = setAt st.failC s (x == .critical) ∧
+      ExitReason c st e s x := by
   have hrun := hB.runPh s (by simp [hloop]) (by simp [hloop])
   have hfT : st.failT s = false := by
     have := (hB.diagClear s (by simp [hloop])).2
@@ -111,6 +112,13 @@ theorem loop_exit (c : Cfg) (st st' : StB) (e : EvB) (s : Nat)
     · simp [hf, hloop, PcB.exitOf] at this
   have hfT' : ∀ x : Exit, setAt st.failT s (st.failT s || x == .timeout) = setAt st.failT s (x == .timeout) := by
     intro x; rw [hfT]; simp
+  have hfC : st.failC s = false := by
+    have := (hB.diagClear s (by simp [hloop])).1
+    cases hf : st.failC s
+    · rfl
+    · simp [hf, hloop, PcB.exitOf] at this
+  have hfC' : ∀ x : Exit, setAt st.failC s (st.failC s || x == .critical) = setAt st.failC s (x == .critical) := by
+    intro x; rw [hfC]; simp
   cases e with
   | runBegin =>
     simp only [stepB] at h
@@ -172,7 +180,7 @@ theorem loop_exit (c : Cfg) (st st' : StB) (e : EvB) (s : Nat)
           obtain ⟨_, hph, hcreq, hdeliv, hpc, hrx, hnow⟩ := stepA_leave ha
           by_cases he : s = s'
           · subst he
-            exact ⟨.cancelled, by simp [exitLoop, setAt], hph, hcreq, hdeliv, hnow, rfl, hfT' _, rfl, rfl⟩
+            exact ⟨.cancelled, by simp [exitLoop, setAt], hph, hcreq, hdeliv, hnow, rfl, hfT' _, hfC' _, rfl⟩
           · simp only [exitLoop, setAt, if_neg he] at hleft
             exact absurd hloop hleft
       all_goals (first | (cases h; done) | (cases h; simp only [setAt] at hleft; grind))
@@ -192,7 +200,7 @@ theorem loop_exit (c : Cfg) (st st' : StB) (e : EvB) (s : Nat)
             obtain ⟨_, _, hph, hcreq, hdeliv, hpc, hrx, hnow⟩ := stepA_react_leave ha
             by_cases he : s = s'
             · subst he
-              exact ⟨.critical, by simp [exitLoop, setAt], hph, hcreq, hdeliv, hnow, rfl, hfT' _, rfl, rfl, D, hD, hcrit⟩
+              exact ⟨.critical, by simp [exitLoop, setAt], hph, hcreq, hdeliv, hnow, rfl, hfT' _, hfC' _, rfl, D, hD, hcrit⟩
             · simp only [exitLoop, setAt, if_neg he] at hleft
               exact absurd hloop hleft
         · rename_i hcrit
@@ -205,7 +213,7 @@ theorem loop_exit (c : Cfg) (st st' : StB) (e : EvB) (s : Nat)
               obtain ⟨_, _, hph, hcreq, hdeliv, hpc, hrx, hnow⟩ := stepA_react_leave ha
               by_cases he : s = s'
               · subst he
-                exact ⟨.success, by simp [exitLoop, setAt], hph, hcreq, hdeliv, hnow, rfl, hfT' _, rfl, rfl, D, hD,
+                exact ⟨.success, by simp [exitLoop, setAt], hph, hcreq, hdeliv, hnow, rfl, hfT' _, hfC' _, rfl, D, hD,
                   by simpa using hcrit, hnb⟩
               · simp only [exitLoop, setAt, if_neg he] at hleft
                 exact absurd hloop hleft
@@ -220,7 +228,7 @@ theorem loop_exit (c : Cfg) (st st' : StB) (e : EvB) (s : Nat)
                 by_cases he : s = s'
                 · subst he
                   obtain ⟨dl, hdl, hle⟩ := expired_some hexp
-                  exact ⟨.timeout, by simp [exitLoop, setAt], hph, hcreq, hdeliv, hnow, rfl, hfT' _, rfl, dl, hdl, hle,
+                  exact ⟨.timeout, by simp [exitLoop, setAt], hph, hcreq, hdeliv, hnow, rfl, hfT' _, hfC' _, dl, hdl, hle,
                     Or.inr ⟨rfl, D, hD, by simpa using hcrit, hnb⟩⟩
                 · simp only [exitLoop, setAt, if_neg he] at hleft
                   exact absurd hloop hleft
@@ -242,7 +250,7 @@ theorem loop_exit (c : Cfg) (st st' : StB) (e : EvB) (s : Nat)
         by_cases he : s = s'
         · subst he
           obtain ⟨dl, hdl, hle⟩ := expired_some hexp
-          exact ⟨.timeout, by simp [exitLoop, setAt], hph, hcreq, hdeliv, hnow, rfl, hfT' _, rfl, dl, hdl, hle,
+          exact ⟨.timeout, by simp [exitLoop, setAt], hph, hcreq, hdeliv, hnow, rfl, hfT' _, hfC' _, dl, hdl, hle,
             Or.inl ⟨rfl, hDn⟩⟩
         · simp only [exitLoop, setAt, if_neg he] at hleft
           exact absurd hloop hleft
@@ -412,17 +420,24 @@ theorem pcB_step (c : Cfg) (st st' : StB) (e : EvB) (s : Nat) (hB : InvB c st) (
       st'.pcB s = (if (c.children s).isEmpty then .over else .loop) ∧
       st'.failT s = st.failT s ∧ st'.failC s = st.failC s ∧ st'.tbegin s = st.a.now ∧ st'.a.now = st.a.now) ∨
     (st.pcB s = .loop ∧ (∃ x, st'.pcB s = .tidy x) ∧
-      (st'.failT s = true ↔ st'.pcB s = .tidy .timeout) ∧ st'.failC s = st.failC s ∧ st'.tbegin s = st.tbegin s) ∨
+      (st'.failT s = true ↔ st'.pcB s = .tidy .timeout) ∧ (st'.failC s = true ↔ st'.pcB s = .tidy .critical) ∧
+      st'.tbegin s = st.tbegin s) ∨
     (∃ x x', (st.pcB s).exitOf = some x ∧ (st'.pcB s).exitOf = some x' ∧ (x' = x ∨ x' = .cancelled) ∧
       st'.failT s = st.failT s ∧ st'.failC s = st.failC s ∧ st'.tbegin s = st.tbegin s) ∨
     (∃ x pick r, (st.pcB s).exitOf = some x ∧ verdict c st s x pick = some r ∧
       st'.a.ph = setAt st.a.ph s (finPh r) ∧ st'.a.deliv = st.a.deliv ∧ st'.a.now = st.a.now ∧
-      st'.pcB s = .over ∧ st'.failT s = st.failT s ∧ st'.failC s = (x == .critical) ∧
+      st'.pcB s = .over ∧ st'.failT s = st.failT s ∧ st'.failC s = st.failC s ∧
       st'.tbegin s = st.tbegin s) := by
   have hfT : st.pcB s = .loop → st.failT s = false := by
     intro hl
     have := (hB.diagClear s (by simp [hl])).2
     cases hf : st.failT s
+    · rfl
+    · simp [hf, hl, PcB.exitOf] at this
+  have hfC : st.pcB s = .loop → st.failC s = false := by
+    intro hl
+    have := (hB.diagClear s (by simp [hl])).1
+    cases hf : st.failC s
     · rfl
     · simp [hf, hl, PcB.exitOf] at this
   cases e with
@@ -484,7 +499,7 @@ theorem pcB_step (c : Cfg) (st st' : StB) (e : EvB) (s : Nat) (hB : InvB c st) (
       · split at h
         · split at h <;> cases h
           exact Or.inr (Or.inr (Or.inl ⟨‹_›, ⟨.cancelled, by simp [exitLoop, setAt]⟩,
-            by simp [exitLoop, setAt, hfT ‹_›], rfl, rfl⟩))
+            by simp [exitLoop, setAt, hfT ‹_›], by simp [exitLoop, setAt, hfC ‹_›], rfl⟩))
         all_goals first
           | (cases h; done)
           | (cases h
@@ -507,15 +522,15 @@ theorem pcB_step (c : Cfg) (st st' : StB) (e : EvB) (s : Nat) (hB : InvB c st) (
         · split at h
           · split at h <;> cases h
             exact Or.inr (Or.inr (Or.inl ⟨hl, ⟨.critical, by simp [exitLoop, setAt]⟩,
-              by simp [exitLoop, setAt, hfT hl], rfl, rfl⟩))
+              by simp [exitLoop, setAt, hfT hl], by simp [exitLoop, setAt], rfl⟩))
           · split at h
             · split at h <;> cases h
               exact Or.inr (Or.inr (Or.inl ⟨hl, ⟨.success, by simp [exitLoop, setAt]⟩,
-                by simp [exitLoop, setAt, hfT hl], rfl, rfl⟩))
+                by simp [exitLoop, setAt, hfT hl], by simp [exitLoop, setAt, hfC hl], rfl⟩))
             · split at h
               · split at h <;> cases h
                 exact Or.inr (Or.inr (Or.inl ⟨hl, ⟨.timeout, by simp [exitLoop, setAt]⟩,
-                  by simp [exitLoop, setAt], rfl, rfl⟩))
+                  by simp [exitLoop, setAt], by simp [exitLoop, setAt, hfC hl], rfl⟩))
               · split at h <;> cases h
                 exact Or.inl ⟨rfl, rfl, rfl, rfl⟩
       · cases h
@@ -531,7 +546,7 @@ theorem pcB_step (c : Cfg) (st st' : StB) (e : EvB) (s : Nat) (hB : InvB c st) (
       all_goals first
         | (cases h; done)
         | (cases h; exact Or.inr (Or.inr (Or.inl ⟨(‹_ ∧ _›).1, ⟨.timeout, by simp [exitLoop, setAt]⟩,
-            by simp [exitLoop, setAt], rfl, rfl⟩)))
+            by simp [exitLoop, setAt], by simp [exitLoop, setAt, hfC (‹_ ∧ _›).1], rfl⟩)))
     · (repeat' split at h)
       all_goals first
         | (cases h; done)
@@ -548,7 +563,7 @@ theorem pcB_step (c : Cfg) (st st' : StB) (e : EvB) (s : Nat) (hB : InvB c st) (
             refine Or.inr (Or.inr (Or.inr (Or.inr ⟨x, pick, r, by simp [hx, PcB.exitOf], hv, hph, hdl, hnow, ?_, ?_, ?_, ?_⟩)))
             · simp [hp, setAt]
             · simp [hfT]
-            · simp [hfC, setAt]
+            · simp [hfC]
             · simp [htb]
           · cases h
             exact Or.inr (Or.inr (Or.inr (Or.inl ⟨x, x, by simp [hx, PcB.exitOf], by simp [setAt, PcB.exitOf],
@@ -573,7 +588,7 @@ theorem pcB_step (c : Cfg) (st st' : StB) (e : EvB) (s : Nat) (hB : InvB c st) (
             refine Or.inr (Or.inr (Or.inr (Or.inr ⟨x, pick, r, by simp [hx, PcB.exitOf], hv, hph, hdl, hnow, ?_, ?_, ?_, ?_⟩)))
             · simp [hp, setAt]
             · simp [hfT]
-            · simp [hfC, setAt]
+            · simp [hfC]
             · simp [htb]
           · cases h
         · cases h
@@ -611,7 +626,7 @@ theorem pcB_step (c : Cfg) (st st' : StB) (e : EvB) (s : Nat) (hB : InvB c st) (
             refine Or.inr (Or.inr (Or.inr (Or.inr ⟨x, pick, r, by simp [hx, PcB.exitOf], hv, hph, hdl, hnow, ?_, ?_, ?_, ?_⟩)))
             · simp [hp, setAt]
             · simp [hfT]
-            · simp [hfC, setAt]
+            · simp [hfC]
             · simp [htb]
           · cases h
         · cases h
@@ -733,16 +748,20 @@ theorem diag_stable (c : Cfg) (st st' : StB) (e : EvB) (s : Nat) (hA : InvA c st
   · simp [hover, PcB.exitOf] at h1
 
 /-- C04: the step in which a run with jobs ends reports exactly the reason for which it left its loop:
-    value / exception (the very exception object of one of its critical jobs, or its own `TimeoutError`),
-    `failed_critical()`; `failed_time_out()` was recorded when the loop was left and is not touched here: it holds
-    after exit `timeout`, does not after `success` / `critical`, and after `cancelled` it tells whether the run
-    had timed out before the cancellation reached its clean-up -/
+    value / exception (the very exception object of one of its critical jobs, or its own `TimeoutError`);
+    `failed_time_out()` and `failed_critical()` were recorded when the loop was left and are not touched here:
+    `failed_time_out()` holds after exit `timeout`, does not after `success` / `critical`, and after `cancelled` it
+    tells whether the run had timed out before the cancellation reached its clean-up; likewise `failed_critical()`
+    holds after exit `critical`, does not after `success` / `timeout`, and after `cancelled` it tells whether the run
+    had aborted on a critical failure before the cancellation reached its clean-up -/
 theorem verdict_of_exit (c : Cfg) (st st' : StB) (e : EvB) (s : Nat)
     (hB : InvB c st) (h : stepB c st e = some st')
     (hnot : st.pcB s ≠ .over) (hover : st'.pcB s = .over) (hne : c.children s ≠ []) :
     ∃ x, (st.pcB s).exitOf = some x ∧
       st'.failT s = st.failT s ∧ (x = .timeout → st'.failT s = true) ∧
-      (st'.failT s = true → x = .timeout ∨ x = .cancelled) ∧ st'.failC s = (x == .critical) ∧
+      (st'.failT s = true → x = .timeout ∨ x = .cancelled) ∧
+      st'.failC s = st.failC s ∧ (x = .critical → st'.failC s = true) ∧
+      (st'.failC s = true → x = .critical ∨ x = .cancelled) ∧
       (match x with
        | .success => st'.a.ph s = .done (.retBool true)
        | .cancelled => st'.a.ph s = .cancelled
@@ -758,13 +777,21 @@ theorem verdict_of_exit (c : Cfg) (st st' : StB) (e : EvB) (s : Nat)
   · rw [h1, if_neg (by simpa using hne)] at hover; cases hover
   · rw [h1] at hover; cases hover
   · simp [hover, PcB.exitOf] at h1
-  · refine ⟨x, hx, hfT, ?_, ?_, hfC, ?_⟩
+  · refine ⟨x, hx, hfT, ?_, ?_, hfC, ?_, ?_, ?_⟩
     · intro hxt
       subst hxt
       rw [hfT]; exact hB.failTSet s hx
     · intro hf
       rw [hfT] at hf
       have := (hB.diagClear s hnot).2 hf
+      rw [hx] at this
+      simpa using this
+    · intro hxc
+      subst hxc
+      rw [hfC]; exact hB.failCSet s hx
+    · intro hf
+      rw [hfC] at hf
+      have := (hB.diagClear s hnot).1 hf
       rw [hx] at this
       simpa using this
     have hs : st'.a.ph s = finPh r := by rw [hph]; simp [setAt]
@@ -983,6 +1010,16 @@ structure ExitInv (c : Cfg) (st : StB) : Prop where
       st.a.ph s = .cancelled ∨
       st.a.ph s = (if nestable c s && c.critical s then .done (.exc (.tmo s)) else .done (.retBool false))
   failCMeans : ∀ s, st.failC s = true → ∃ k ∈ c.children s, c.critical k = true ∧ ∃ ex, st.a.ph k = .done (.exc ex)
+  /-- … and, like `failed_time_out()`, in every state it tells that the run left its main loop by a critical failure:
+      it does not hold before the run has left its loop; while the run cleans up it holds iff the exit reason is
+      `critical`, or `cancelled` after a `critical` (`InvB.diagClear`, `InvB.failCSet`; history form:
+      `failC_iff_critOut`); once the run is over, the run ended with the verdict of a critical failure (the exception
+      of one of its critical jobs, or `False`), or cancelled -/
+  failCOver : ∀ s, st.pcB s = .over → st.failC s = true →
+      st.a.ph s = .cancelled ∨
+      (if nestable c s && c.critical s then
+         ∃ k ∈ c.children s, c.critical k = true ∧ ∃ ex, st.a.ph k = .done (.exc ex) ∧ st.a.ph s = .done (.exc ex)
+       else st.a.ph s = .done (.retBool false))
   /-- C10: where an exception object comes from: an atomic job raises its own; a scheduler re-raises the object
       of one of its critical jobs, or its own `TimeoutError` -/
   excOrigin : ∀ j ex, j < c.n → st.a.ph j = .done (.exc ex) →
@@ -1103,6 +1140,17 @@ theorem exitInv_step (c : Cfg) (hwf : c.wf = true) (st st' : StB) (e : EvB)
     · have h1 := (hB.diagClear s ho).2 hf
       have h2 := hB.runPh s
       cases hp : st.pcB s <;> simp_all [PcB.exitOf]
+  -- … and so is `failed_critical()`
+  have hbegC : ∀ s, (st.a.ph s = .queued ∨ st.pcB s = .notBegun) → ¬ st.failC s = true := by
+    intro s q0 hf
+    by_cases ho : st.pcB s = .over
+    · have hr := hB.pcRange s (by simp [ho])
+      have := hA.notBegun s hr.2
+      have := hB.pcNotBegun s
+      grind
+    · have h1 := (hB.diagClear s ho).1 hf
+      have h2 := hB.runPh s
+      cases hp : st.pcB s <;> simp_all [PcB.exitOf]
   exact
     { successMeans := hsucc
       criticalMeans := hcrit
@@ -1166,12 +1214,66 @@ theorem exitInv_step (c : Cfg) (hwf : c.wf = true) (st st' : StB) (e : EvB)
             ⟨y, y', _, _, _, _, q1, _⟩ | ⟨y, pick, r, hy, _, _, _, _, _, _, q1, _⟩
         · rw [q1] at hf; exact crit_transfer c st st' e h s (hE.failCMeans s hf)
         · rw [q1] at hf; exact crit_transfer c st st' e h s (hE.failCMeans s hf)
+        · exact hcrit s (by rw [q1.1 hf]; rfl)
         · rw [q1] at hf; exact crit_transfer c st st' e h s (hE.failCMeans s hf)
         · rw [q1] at hf; exact crit_transfer c st st' e h s (hE.failCMeans s hf)
+      failCOver := by
+        intro s ho hf
+        rcases pcB_step c st st' e s hB h with ⟨q0, _, q1, _⟩ | ⟨q0, _, _, q1, _⟩ | ⟨_, ⟨y, q0⟩, _⟩ |
+            ⟨y, y', _, q0, _⟩ | ⟨y, pick, r, hy, hv, hph, _, _, _, _, q1, _⟩
+        · rw [q0] at ho; rw [q1] at hf
+          have := hE.failCOver s ho hf
+          have hd : (st.a.ph s).isDone = true ∨ st.a.ph s = .cancelled := by
+            rcases this with h1 | h1
+            · exact Or.inr h1
+            · left
+              split at h1
+              · obtain ⟨_, _, _, _, _, h2⟩ := h1; rw [h2]; rfl
+              · rw [h1]; rfl
+          rw [f1 s hd]
+          rcases this with h1 | h1
+          · exact Or.inl h1
+          · right
+            split at h1
+            · rename_i hc
+              rw [if_pos hc]
+              obtain ⟨k, hk, hkc, ex, hke, h2⟩ := h1
+              exact ⟨k, hk, hkc, ex, by rw [f1 k (Or.inl (by simp [hke, Ph.isDone])), hke], h2⟩
+            · rename_i hc
+              rw [if_neg hc]; exact h1
+        · exact absurd (q1 ▸ hf) (hbegC s q0)
+        · rw [q0] at ho; cases ho
+        · rw [ho] at q0; simp [PcB.exitOf] at q0
         · rw [q1] at hf
-          have : y = .critical := by simpa using hf
-          subst this
-          exact crit_transfer c st st' e h s (hE.criticalMeans s hy)
+          have hno : st.pcB s ≠ .over := by intro ho'; rw [ho'] at hy; simp [PcB.exitOf] at hy
+          have := (hB.diagClear s hno).1 hf
+          rw [hy] at this
+          have hs : st'.a.ph s = finPh r := by rw [hph]; simp [setAt]
+          rw [hs]
+          rcases this with h1 | h1
+          · have : y = .critical := by simpa using h1
+            subst this
+            simp only [verdict] at hv
+            right
+            split at hv
+            · rename_i hc
+              rw [if_pos hc]
+              split at hv
+              · rename_i hp
+                split at hv
+                · rename_i ex hex
+                  cases hv
+                  refine ⟨pick, hp.1, hp.2, ex, ?_, rfl⟩
+                  rw [f1 pick (Or.inl (by simp [hex, Ph.isDone])), hex]
+                · cases hv
+              · cases hv
+            · rename_i hc
+              rw [if_neg hc]
+              cases hv; rfl
+          · have : y = .cancelled := by simpa using h1
+            subst this
+            simp only [verdict] at hv
+            cases hv; left; rfl
       excOrigin := by
         intro j ex hjn hd
         rcases newDone c st st' e hB hB' h j _ hd with h1 | h1 | h1 | ⟨x, pick, hx, hv⟩
@@ -1286,6 +1388,76 @@ theorem failT_iff_timesOut (c : Cfg) (hwf : c.wf = true) (evs : List EvB) (st : 
   rw [failT_iff_timesOutFrom c hwf s evs StB.init st (invA_init c) (invB_init c) h]
   simp [timesOut, StB.init]
 
+/-! ### `failed_critical()` and the history -/
+
+/-- one step: `failed_critical()` of `s` holds afterwards iff it held before, or the step takes the run of `s`
+    out of its main loop by a critical failure -/
+theorem failC_step (c : Cfg) (hwf : c.wf = true) (st st' : StB) (e : EvB) (s : Nat)
+    (hA : InvA c st.a) (hB : InvB c st) (h : stepB c st e = some st') :
+    st'.failC s = true ↔ st.failC s = true ∨ st'.pcB s = .tidy .critical := by
+  have hB' := invB_step c hwf st st' e hA hB h
+  constructor
+  · intro hf
+    rcases pcB_step c st st' e s hB h with ⟨_, _, q1, _⟩ | ⟨_, _, _, q1, _⟩ | ⟨_, _, _, q1, _⟩ |
+        ⟨y, y', _, _, _, _, q1, _⟩ | ⟨y, pick, r, _, _, _, _, _, _, _, q1, _⟩
+    · exact Or.inl (q1 ▸ hf)
+    · exact Or.inl (q1 ▸ hf)
+    · exact Or.inr (q1.1 hf)
+    · exact Or.inl (q1 ▸ hf)
+    · exact Or.inl (q1 ▸ hf)
+  · rintro (hf | hx)
+    · rcases pcB_step c st st' e s hB h with ⟨_, _, q1, _⟩ | ⟨_, _, _, q1, _⟩ | ⟨q0, _, _, q1, _⟩ |
+          ⟨y, y', _, _, _, _, q1, _⟩ | ⟨y, pick, r, _, _, _, _, _, _, _, q1, _⟩
+      · rw [q1]; exact hf
+      · rw [q1]; exact hf
+      · have := (hB.diagClear s (by simp [q0])).1 hf
+        simp [q0, PcB.exitOf] at this
+      · rw [q1]; exact hf
+      · rw [q1]; exact hf
+    · exact hB'.failCSet s (by rw [hx]; rfl)
+
+theorem failC_iff_critOutFrom (c : Cfg) (hwf : c.wf = true) (s : Nat) (evs : List EvB) (st0 st : StB)
+    (hA : InvA c st0.a) (hB : InvB c st0) (h : acceptB c st0 evs = some st) :
+    st.failC s = true ↔ st0.failC s = true ∨ critOutFrom c s st0 evs := by
+  induction evs generalizing st0 with
+  | nil =>
+    simp only [acceptB] at h; cases h
+    rw [critOutFrom_nil]
+    constructor
+    · exact Or.inl
+    · rintro (hf | hx)
+      · exact hf
+      · exact hB.failCSet s (by rw [hx]; rfl)
+  | cons e es ih =>
+    simp only [acceptB] at h
+    split at h
+    · rename_i st1 hs
+      have hB1 := invB_step c hwf st0 st1 e hA hB hs
+      have hA1 : InvA c st1.a := by
+        rcases stepB_refines c st0 st1 e hs with heq | ⟨ea, hea⟩
+        · rw [heq]; exact hA
+        · exact invA_step c hwf st0.a st1.a ea hA hea
+      rw [ih st1 hA1 hB1 h, failC_step c hwf st0 st1 e s hA hB hs, critOutFrom_cons c s st0 st1 e es hs]
+      constructor
+      · rintro ((hf | hx) | ht)
+        · exact Or.inl hf
+        · exact Or.inr (Or.inr ⟨[], st1, List.nil_prefix, rfl, hx⟩)
+        · exact Or.inr (Or.inr ht)
+      · rintro (hf | hx | ht)
+        · exact Or.inl (Or.inl hf)
+        · exact Or.inl (Or.inl (hB.failCSet s (by rw [hx]; rfl)))
+        · exact Or.inr ht
+    · cases h
+
+/-- C04 / C05: in every reachable state — while the run cleans up as well as once it is over, and whatever the
+    clean-up ends with (a cancellation by the enclosing scheduler included) — `failed_critical()` of `s` holds iff
+    the run of `s` left its main loop by a critical failure -/
+theorem failC_iff_critOut (c : Cfg) (hwf : c.wf = true) (evs : List EvB) (st : StB)
+    (h : acceptB c StB.init evs = some st) (s : Nat) :
+    st.failC s = true ↔ critOut c s evs := by
+  rw [failC_iff_critOutFrom c hwf s evs StB.init st (invA_init c) (invB_init c) h]
+  simp [critOut, StB.init]
+
 /-! ### non-vacuity: the expiry noticed in a reaction
 
   Scheduler `0` with timeout 3, job `1` (3 time units), job `2` requiring job `1`: the completion of `1` is reported
@@ -1330,6 +1502,36 @@ example : tmoNestCfg.wf = true ∧
     (acceptB tmoNestCfg StB.init tmoNestEvs).map (fun st => (st.pcB 1, st.failT 1, st.failC 1, st.a.ph 1, st.a.ph 3)) =
       some (.over, true, false, .cancelled, .idle) := by
   decide
+
+/-! ### non-vacuity: a critical failure, then a cancellation during the clean-up
+
+  Scheduler `1` (critical job `2` that raises, long job `3` whose cancellation takes time: its `cancelAck` comes after
+  a `tick`) is nested in scheduler `0`, whose timeout (1) expires while `1` is waiting in `_tidy_tasks` for job `3`:
+  `1` left its loop by a critical failure (`failed_critical()` holds at once), is cancelled during that clean-up,
+  ends cancelled — and still reports `failed_critical()`. -/
+
+def critNestCfg : Cfg :=
+  { n := 4, parent := fun j => if j = 2 ∨ j = 3 then 1 else 0, isSched := fun j => j = 0 ∨ j = 1,
+    req := fun _ => [], critical := fun j => j = 2, forever := fun _ => false, window := fun _ => 0,
+    timeout := fun j => if j = 0 then some 1 else none, sdTimeout := fun _ => none, topPure := true }
+
+def critNestEvs : List EvB :=
+  [.runBegin, .grant 1, .grant 2, .grant 3, .bodyEnd 2 false, .waitReturn 1, .react 1, .tick 1, .timeoutFire 0,
+   .cancelArrive 1, .cancelAck 3, .tidyReturn 1 0, .hEnd 2, .hEnd 3, .sdWaitReturn 1 0]
+
+example : critNestCfg.wf = true ∧
+    (acceptB critNestCfg StB.init (critNestEvs.take 7)).map (fun st => (st.pcB 1, st.failC 1, st.a.creq 3)) =
+      some (.tidy .critical, true, true) ∧
+    (acceptB critNestCfg StB.init (critNestEvs.take 9)).map (fun st => (st.pcB 0, st.pcB 1, st.failC 1, st.a.ph 3)) =
+      some (.tidy .timeout, .tidy .critical, true, .running) ∧
+    (acceptB critNestCfg StB.init (critNestEvs.take 10)).map (fun st => (st.pcB 1, st.failC 1)) =
+      some (.tidy .cancelled, true) ∧
+    (acceptB critNestCfg StB.init critNestEvs).map (fun st => (st.pcB 1, st.failC 1, st.failT 1, st.a.ph 1, st.a.ph 3)) =
+      some (.over, true, false, .cancelled, .cancelled) := by
+  decide
+
+example : critOut critNestCfg 1 critNestEvs :=
+  ⟨critNestEvs.take 7, _, List.take_prefix _ _, rfl, by decide⟩
 
 /-- C08: T is measured from the beginning of the scheduler's own run, and the run does not stay in its main loop
     beyond `begin + T` -/
